@@ -257,6 +257,17 @@ theorem scratch_writers_exist :
     (∀ p ∈ scratchWriter, p ∈ policyEvidence) ∧ (∀ p ∈ scratchWriter, p.1 ∈ scratch.map (·.1)) := by
   decide +kernel
 
+/-- pointer members: every one is reassigned (NULL or a new object) by the load path or is reviewed as dead; every owning
+    pointer is released by clean_up() (or by the function the policy names) and every pointer clean_up() releases is
+    reassigned afterwards — nothing of an old heap object stays reachable -/
+theorem pointer_members_reset :
+    (∀ p ∈ pointerMembers, covered p = true ∨ dead p = true) ∧
+    (∀ p ∈ ownedPointers, p ∈ freedInCleanUp ∨ p ∈ freedElsewhereIds) ∧
+    (∀ p ∈ freedInCleanUp, covered p = true) ∧
+    (∀ p ∈ freedElsewhere, p ∈ policyEvidence) ∧
+    freedElsewhereIds.map (fun i => names.getD i "") = freedElsewhere.map (·.1) := by
+  decide +kernel
+
 /-- PHRQ_io switches that input can flip are restored by UnLoadDatabase / the read_input prologue or explained -/
 theorem io_flags_reset :
     ∀ f ∈ ioFlagsSetByReaders, f ∈ ioFlagsResetByUnload ∨ f ∈ ioFlagsResetByPrologue ∨ f ∈ ioHealed.map (·.1) ∨ f ∈ knownUnresetIo := by
